@@ -17,6 +17,16 @@ import common, build, apicheck, tlc, lacon
 import glob, json
 
 
+def first_column_corrections(r):
+    n = 0
+    for e in r["ev"]:
+        if e[0] == 3:
+            break
+        if e[0] == 2:
+            n += 1
+    return n
+
+
 def main(tier):
     ck = common.Check("C13", tier, "model_checking")
     rng = random.Random(ck.seed * 1000003 + 13)
@@ -56,12 +66,28 @@ def main(tier):
         ck.case("rfsmodel:%d:%d" % (nr, op))
         if not r["ok"]:
             ck.violation("rfsmodel:%d:%d" % (nr, op), "SluRefine (NRhs=%d, Op=%d) violates %s" % (nr, op, r["violated"] or r["errors"][:2]))
+    # right-hand sides that use ALL ITMAX refinement steps: arrow matrices in natural order, u = 0, a tiny leading entry (inaccurate factors of a
+    # well-conditioned matrix); only the protocol of these calls is judged (after every correction a new residual, then the estimator)
+    apidir = os.path.join(ck.dir, "api")
+    os.makedirs(apidir, exist_ok=True)
+    import api as _api
+    its = []
+    for i in range(12 if quick else 96):
+        prec = ("d", "z", "d", "s")[i % 4]
+        tiny = rng.choice([44, 46, 48, 50]) if prec in "dz" else rng.choice([18, 20, 22])
+        its.append((i, prec, "\n".join(["ienv p1=2 p2=1 p3=4", "mat gen=arrow n=%d last=0 seed=%d stype=NC scale=none vstyle=0 tiny=%d" % (rng.randint(12, 40), rng.randrange(10 ** 6), tiny),
+                                        "permc order=-1", "gssvx P=%d fact=DOFACT trans=%s nrhs=2 u=0.0 seed=%d" % (rng.choice([1, 2]), rng.choice(["N", "T"]), rng.randrange(10 ** 6))]) + "\n"))
+    for p_ in set(x[1] for x in its):
+        _api.driver(p_)
+    for i, prec, st, op in common.pmap(lambda a: (a[0], a[1]) + tuple(_api.run_script(a[2], apidir, "h_itmax%d" % a[0], prec=a[1])[:2]), its):
+        ck.case("itmax:%s:%d" % (prec, i))
     recs = []
     for f in glob.glob(os.path.join(ck.dir, "api", "h*.ndjson")):
         if f.endswith(".calls.ndjson") or ".ev." in f:
             continue
         recs += lacon.rfs_records(f)
     ck.notes["gsrfs_protocol_records"] = len(recs)
+    ck.notes["gsrfs_records_with_ITMAX_corrections"] = sum(1 for r in recs if first_column_corrections(r) >= 5)
     if recs:
         bad, states, errors = tlc.validate_records(wd, "rfs", "SluRefineTrace", recs, constants="CONSTANTS NGt1 = TRUE ITMAX = 5 NRhs = 1 Op = 0")
         ck.model(states, states)
